@@ -54,8 +54,8 @@ Spline1D(prm) ==
         q0 == BMin({q \in 1..NT-p-1 : on(q, e0)})                 \* dof 0 = the first function on element 0
         lab(q) == (q - q0) % nd
         elfun(e) == {q \in 1..NT-p-1 : on(q, e0 + e)}
-        ed == [e \in 1..n |-> LET qs == BSorted(elfun(e-1)) IN [i \in 1..Len(qs) |-> lab(qs[i])]]
-        su == [d \in 1..nd |-> {IF isper THEN x % n ELSE x : x \in {e \in 0..K-1 : on(q0 + d - 1, e)}}]
+        ed == TLCEval([e \in 1..n |-> LET qs == BSorted(elfun(e-1)) IN [i \in 1..Len(qs) |-> lab(qs[i])]])
+        su == TLCEval([d \in 1..nd |-> {IF isper THEN x % n ELSE x : x \in {e \in 0..K-1 : on(q0 + d - 1, e)}}])
         smooth(q, i) == p - Cardinality({k \in q..q+p+1 : T[k] = i}) + (IF Mutant = "cont-off" THEN 1 ELSE 0)
         cont(I) == BMin(UNION {{smooth(q0+d, i) : i \in {j \in T[q0+d]..T[q0+d+p+1] : IF isper THEN j % n = I ELSE j = I}} : d \in 0..nd-1})
         faces == IF prm.per THEN 0..n-1 ELSE 1..n-1
